@@ -375,7 +375,7 @@ impl Prop for C14 {
                         depths.push(d);
                     }
                 }
-                depths.extend([600, 650, 699, 800, 899, 1000, 1299, 1300, 1301, 2000, 4096, 8000, 8100]);
+                depths.extend([600, 650, 800, 1000, 1299, 1300, 1301, 2000, 4096, 8000, 8100]);
             }
             Tier::Thorough => {
                 depths.extend(0..=1320);
